@@ -1067,13 +1067,17 @@ theorem iterLoop_evalIn {R : State → Prop} (hR : Region R) (hE : EvalBelowMate
   | zero => intro depth st _ _ h; exact h
   | succ n ih =>
     intro depth st hd hinv h
-    rw [iterLoop]
+    have hinvb := hinv.boundaryPoll ctx depth
+    rw [iterLoop_succ]
     split
     · exact h
+    split
+    · rw [boundaryPoll_tt]; exact h
     · refine ih _ _ (by omega) ?_ ?_
       · exact iterStep_inv hR.graded D ctx (hcf.congr (fun s hs => (upTo_const D s).1 hs)) root hroot rootHash _ depth
-          (by omega) st hinv
-      · exact iterStep_evalIn hR hE ctx root hroot rootHash _ depth (by omega) st hinv.best h
+          (by omega) _ hinvb
+      · exact iterStep_evalIn hR hE ctx root hroot rootHash _ depth (by omega) _ hinvb.best
+          (by rw [boundaryPoll_tt]; exact h)
 
 /-- **`iterate` keeps the evaluation range**: for a region with `EvalBelowMate`, collision-free keys, an incoming table
 satisfying the C03 invariant and `EvalIn`, and a depth limit `≤ 10^9` (plies stay below `2^31`), the table of the artifact
@@ -1610,10 +1614,11 @@ theorem loopS_events_mono {ctx : Ctx} {root : State} {rootHash : UInt64} {worker
   induction hl with
   | done depth st => exact fun _ h => h
   | finished n depth st _ => exact fun _ h => h
-  | step n depth st st1 st2 _ hs _ ih =>
+  | stopped n depth st p _ _ => exact fun _ h => by rw [boundaryPoll_events]; exact h
+  | step n depth st st1 st2 p _ _ hs _ ih =>
     intro ev hev
     obtain ⟨pollsOf, started, H, polls', _, _, _, rfl⟩ := hs
-    exact ih ev (finishStep_events_mono _ _ _ _ _ _ _ ev hev)
+    exact ih ev (finishStep_events_mono _ _ _ _ _ _ _ ev (by rw [boundaryPoll_events]; exact hev))
 
 /-- **every outcome of the search under arbitrary schedules reports at least once** (the events of the final loop state) -/
 theorem loopS_first_reports {R : State → Prop} (hR : Region R) (hE : EvalBelowMate R) (ctx : Ctx) (root : State)
@@ -1626,9 +1631,13 @@ theorem loopS_first_reports {R : State → Prop} (hR : Region R) (hE : EvalBelow
     ∃ ev line, Event.best ev line ∈ st'.events := by
   cases hl with
   | finished _ _ _ hf => rw [hfin] at hf; cases hf
-  | step _ _ _ st1 _ _ hs hrest =>
+  | stopped _ _ _ p _ hb =>
+    -- the flag is not read before the first iteration
+    rw [boundaryPoll_zero] at hb; rw [hfin] at hb; cases hb
+  | step _ _ _ st1 _ p _ _ hs hrest =>
+    rw [boundaryPoll_zero] at hs
     obtain ⟨_, ev, line, hmem⟩ := stepS_first_reports hR hE ctx root hroot hmoves hfew hcf nT nB hT hB hhist (workersOf 0) hw
-      st st1 hbest hI0 htinv hs
+      { st with polls := p } st1 hbest hI0 htinv hs
     exact ⟨ev, line, loopS_events_mono hrest _ hmem⟩
 
 end Wee.Env
@@ -1995,12 +2004,15 @@ theorem loopS_evalIn {R : State → Prop} (hR : Region R) (hE : EvalBelowMate R)
   induction hl with
   | done depth st => exact fun _ _ h => h
   | finished n depth st _ => exact fun _ _ h => h
-  | step n depth st st1 st2 _ hs _ ih =>
+  | stopped n depth st p _ _ => exact fun _ _ h => by rw [boundaryPoll_tt]; exact h
+  | step n depth st st1 st2 p _ _ hs _ ih =>
     intro hd hinv h
+    have hinvb := (show IterInv _ _ root { st with polls := p } from ⟨hinv.tt, hinv.best, hinv.events⟩).boundaryPoll ctx depth
     refine ih (by omega) ?_ ?_
     · exact stepS_inv hR.graded D ctx (hcf.congr (fun s hs => (upTo_const D s).1 hs)) root hroot rootHash _ depth
-        (by omega) st st1 hinv hs
-    · exact stepS_evalIn hR hE ctx root hroot rootHash _ depth (by omega) st st1 hinv.best h hs
+        (by omega) _ st1 hinvb hs
+    · exact stepS_evalIn hR hE ctx root hroot rootHash _ depth (by omega) _ st1 hinvb.best
+        (by rw [boundaryPoll_tt]; exact h) hs
 
 /-- **every outcome of the search under arbitrary schedules keeps the evaluation range** -/
 theorem searchS_evalIn {R : State → Prop} (hR : Region R) (hE : EvalBelowMate R) (root : State) (hroot : R root)
